@@ -126,6 +126,7 @@ func runC15(o *Out) {
 	if _, err := os.Stat(gtsBin); err != nil {
 		panic("gts binary not built: " + gtsBin)
 	}
+	scenarioStreamIndependence(o)
 	n := 60
 	locators := []string{"10", "10..20", "complement(12..18)", "CDS", "gene", "misc_feature", "exon", "CDS@^", "CDS@^-2..$+2", "@^+3",
 		"gene@$", "^+5..^+10", "misc_feature@^..^+3", "CDS/gene=b", "/gene=a", "$-10..$", "1", "60", "regulatory", "mRNA", "regulatory@^", "tRNA"}
@@ -504,6 +505,49 @@ func scenarioMultiGuest(o *Out, text []byte, plain gts.Sequence, locators []stri
 							o.Violate("contig-guest-feature-out-of-range", "gts "+strings.Join(cargs[:2], " ")+" <CONTIG-only guest>", f.Key+" "+locSx(f.Loc))
 						}
 					}
+				}
+			}
+		}
+	}
+}
+
+// the records of a stream are handled independently: what a command writes for
+// a stream is what it writes for each record alone, one after the other --
+// circular and linear records mixed, in every order
+func scenarioStreamIndependence(o *Out) {
+	sb := newSandbox()
+	defer sb.close()
+	circ := gbText(mkRecord(gts.Circular, 60))
+	lin := gbText(mkRecord(gts.Linear, 60))
+	lin2 := gbText(mkRecord(gts.Linear, 56))
+	streams := [][][]byte{{circ, lin}, {lin, circ, lin2}, {circ, circ, lin}, {lin2, lin, circ}, {circ, lin2}}
+	locs := []string{"CDS", "misc_feature", "gene", "regulatory", "10", "tRNA", "mRNA"}
+	for _, ls := range locs {
+		for _, cmd := range [][]string{{"split", ls}, {"delete", ls}, {"extract", ls}, {"rotate", ls}, {"insert", ls, "@NN"}} {
+			alone := map[string]runResult{}
+			for _, st := range streams {
+				var whole, want []byte
+				code := 0
+				for _, rec := range st {
+					whole = append(whole, rec...)
+					r, seen := alone[string(rec)]
+					if !seen {
+						r = sb.run(cmd, rec, false, true)
+						alone[string(rec)] = r
+					}
+					want = append(want, r.stdout...)
+					if r.code != 0 {
+						code = r.code
+					}
+				}
+				if code != 0 {
+					continue
+				}
+				got := sb.run(cmd, whole, false, true)
+				o.Dist["cli-stream-independence"]++
+				if got.code != 0 || !bytes.Equal(got.stdout, want) {
+					o.Violate("stream-records-not-independent", fmt.Sprintf("gts %s on a stream of %d records", strings.Join(cmd, " "), len(st)),
+						fmt.Sprintf("exit %d, %d bytes, want %d bytes", got.code, len(got.stdout), len(want)))
 				}
 			}
 		}
